@@ -8,6 +8,7 @@ import GrinVerif.Model.ChainReport
 import GrinVerif.Model.ChainStatus
 import GrinVerif.Model.ChainOrphans
 import GrinVerif.Model.ChainReset
+import GrinVerif.Model.ChainKnown
 /-! Driver glue for the `chain` domain: block tree definitions shared by all subject chains,
 one model `Node` per subject. -/
 namespace GV.Drv.ChainD
@@ -24,6 +25,12 @@ structure St where
   told : List (String × String) := []
   /-- per subject: the bounded orphan pool (`Model/ChainOrphans.lean`) -/
   pools : List (String × OPool) := []
+  /-- per subject: `Chain::denylist` (in memory: a restart forgets it) -/
+  deny : List (String × List Nat) := []
+  /-- per subject: the options every parked orphan was last offered with (`Orphan.opts`) -/
+  oopts : List (String × List (Nat × Nat)) := []
+  /-- per subject: the notifications of the last `deliver` with the options the adapter saw -/
+  toldO : List (String × String) := []
 
 def stripPfx (s : String) (n : Nat) : String := (s.drop n).toString
 
@@ -175,6 +182,16 @@ def parseFull (p : Params) (rest : List String) : Option (FullState × Bool × B
                                   blindFault := if blind == "1" then some "Committed:KernelSumMismatch" else none }
   pure (s, fast == "1", !sigbad.isEmpty || !proofbad.isEmpty)
 
+def denyOf (st : St) (s : String) : List Nat :=
+  match st.deny.find? (·.1 == s) with
+  | some (_, l) => l
+  | none => []
+
+def ooptsOf (st : St) (s : String) : List (Nat × Nat) :=
+  match st.oopts.find? (·.1 == s) with
+  | some (_, l) => l
+  | none => []
+
 def handle (st : St) (args : List String) (impl : String) : St × Verdict :=
   let p : Params := {}
   match args with
@@ -191,16 +208,39 @@ def handle (st : St) (args : List String) (impl : String) : St × Verdict :=
     let S0 := match st.blks.find? (·.id == 0) with
       | some g => (match applyBlockImpl {} g with | .ok S => some S | .error _ => none)
       | none => none
-    (setImpl (setNode st s {}) s (0, S0), .ok)
-  | ["deliver", s, b] =>
+    let st0 := { st with deny := st.deny.filter (·.1 != s), oopts := st.oopts.filter (·.1 != s) }
+    (setImpl (setNode st0 s {}) s (0, S0), .ok)
+  | "deliver" :: s :: b :: optArg =>
     match getNode st s, (idOf b).bind (fun i => st.blks.find? (·.id == i)) with
     | some n, some blk =>
-      -- `deliverBlockEv` is `deliverBlock` with the adapter notifications (Props/C03Status.lean:
-      -- `deliverBlockEv_fst`, `deliverBlockEv_res`)
-      let (n', r, evs) := deliverBlockEv p n blk
-      let st1 := { st with told := (s, showEvs evs) :: st.told.filter (·.1 != s) }
+      -- `deliverBlockK` (Model/ChainKnown.lean) is `Chain::process_block` with the code's
+      -- work-conditional `check_known` and the denylist; on the states block processing alone
+      -- reaches it is `deliverBlockEv` (Props/C03Known.lean: `deliverBlockK_eq`), which is
+      -- `deliverBlock` with the adapter notifications (Props/C03Status.lean)
+      let opts := ((kv optArg "opts").bind String.toNat?).getD 1
+      let (n', r, evs) := deliverBlockK p (denyOf st s) n blk
+      let oo := ooptsOf st s
+      let st1 := { st with told := (s, showEvs evs) :: st.told.filter (·.1 != s),
+                           toldO := (s, showEvsO (annotateOpts oo blk.id opts evs)) :: st.toldO.filter (·.1 != s),
+                           oopts := (s, parkOpts oo blk.id opts r) :: st.oopts.filter (·.1 != s) }
       (followImpl (setNode st1 s n') s n', cmpDeliver r.toString impl)
     | _, _ => (st, .unknown)
+  | ["deny", s, b] =>
+    -- `Chain::invalidate_header`
+    match idOf b with
+    | some id => ({ st with deny := (s, denyOf st s ++ [id]) :: st.deny.filter (·.1 != s) }, cmpSpec "ok" impl)
+    | none => (st, .unknown)
+  | ["statuso", s] =>
+    -- as `status`, with the options the adapter saw with every notification
+    match st.toldO.find? (·.1 == s) with
+    | some (_, m) =>
+      if statusSkeleton m = statusSkeleton impl then (st, cmpModel m impl) else (st, .fail m)
+    | none => (st, .unknown)
+  | ["orph", s] =>
+    -- `Chain::is_orphan` over every block of the tree: the blocks waiting in the orphan pool
+    match getNode st s with
+    | some n => (st, cmpModel ("[" ++ ",".intercalate ((sortNat n.orphans).map fun o => s!"b{o}") ++ "]") impl)
+    | none => (st, .unknown)
   | ["opool", s, "new"] => ({ st with pools := (s, {}) :: st.pools.filter (·.1 != s) }, .ok)
   | ["opool", s, "add", b, h] =>
     match st.pools.find? (·.1 == s), idOf b, (kv [h] "h").bind String.toNat? with
@@ -225,7 +265,7 @@ def handle (st : St) (args : List String) (impl : String) : St × Verdict :=
     -- `Chain::reset_chain_head(b, rewind_headers)`
     match getNode st s, idOf b, kv [hd] "hdrs" with
     | some n, some t, some h =>
-      match resetChainHead p n t (h == "1") with
+      match resetChainHeadK p (denyOf st s) n t (h == "1") with
       | .ok n' => (followImpl (setNode st s n') s n', cmpDeliver "ok" impl)
       | .error e => (st, cmpDeliver s!"err:{e}" impl)
     | _, _, _ => (st, .unknown)
@@ -290,17 +330,24 @@ def handle (st : St) (args : List String) (impl : String) : St × Verdict :=
       (st, cmpModel ("[" ++ ",".intercalate l ++ "]") impl)
     | _, _ => (st, .diff "txhashset-model failed to follow the head")
   | ["hrange", s, a, b] =>
-    match getNode st s, a.toNat?, b.toNat? with
+    match getNode st s, a.toNat?, parseOptNat b with
     | some n, some a, some b =>
       let m := match heightRangeToPmmr n a b with
         | .ok (x, y) => s!"{x},{y}"
         | .error e => s!"err:{e}"
       (st, cmpModel m impl)
     | _, _, _ => (st, .unknown)
+  | ["hdrs", s, l] =>
+    -- `Chain::sync_block_headers`: a chunk of headers, all or nothing (Model/ChainKnown.lean)
+    match getNode st s, (listItems l).mapM (fun x => (idOf x).bind (fun i => st.blks.find? (·.id == i))) with
+    | some n, some bs =>
+      let (n', r) := deliverHeadersK p (denyOf st s) n bs
+      (setNode st s n', cmpDeliver r impl)
+    | _, _ => (st, .unknown)
   | ["hdr", s, b] =>
     match getNode st s, (idOf b).bind (fun i => st.blks.find? (·.id == i)) with
     | some n, some blk =>
-      let (n', r) := deliverHeader p n blk
+      let (n', r) := deliverHeaderK p (denyOf st s) n blk
       (setNode st s n', cmpDeliver r impl)
     | _, _ => (st, .unknown)
   | "txmat" :: s :: rest | "txlock" :: s :: rest | "txval" :: s :: rest | "txins" :: s :: rest =>
@@ -332,9 +379,11 @@ def handle (st : St) (args : List String) (impl : String) : St × Verdict :=
       | v => (st, v)
     | none => (st, .unknown)
   | ["reopen", s] =>
-    -- a restart forgets the in-memory orphan pool; everything else is durable
+    -- a restart forgets the in-memory orphan pool and the denylist; everything else is durable
     match getNode st s with
-    | some n => (setNode st s { n with orphans := [] }, cmpSpec "ok" impl)
+    | some n =>
+      let st1 := { st with deny := st.deny.filter (·.1 != s), oopts := st.oopts.filter (·.1 != s) }
+      (setNode st1 s { n with orphans := [] }, cmpSpec "ok" impl)
     | none => (st, .unknown)
   | "fullval" :: rest =>
     match parseFull p rest with
